@@ -21,6 +21,9 @@ pub trait MN: MaybeNan + Clone + Debug + Send + Sync + 'static {
     fn is_inf(&self) -> bool {
         false
     }
+    /// value of a non-missing element as f64 (exact for every test value): the harness's own order,
+    /// independent of the `Ord` of the not-NaN wrapper under test
+    fn rank(&self) -> f64;
 }
 
 macro_rules! mn_float {
@@ -51,8 +54,13 @@ macro_rules! mn_float {
             fn is_inf(&self) -> bool {
                 self.is_infinite()
             }
+            fn rank(&self) -> f64 {
+                *self as f64
+            }
             fn key(&self) -> i128 {
-                if self.is_nan() {
+                // the float's own test, not `MaybeNan::is_nan` (which is the code under test and would
+                // otherwise be picked by method resolution on `&self`)
+                if <$t>::is_nan(*self) {
                     i128::MIN
                 } else {
                     self.to_bits() as i128
@@ -83,6 +91,9 @@ macro_rules! mn_opt_int {
                     None => i128::MIN,
                     Some(v) => *v as i128,
                 }
+            }
+            fn rank(&self) -> f64 {
+                self.map(|v| v as f64).unwrap_or(f64::NAN)
             }
             fn nn_to_self(x: &Self::NotNan) -> Self {
                 x.clone().into_inner()
@@ -116,6 +127,9 @@ impl MN for Option<N64> {
             Some(v) => v.raw().to_bits() as i128,
         }
     }
+    fn rank(&self) -> f64 {
+        self.map(|v| v.raw() as f64).unwrap_or(f64::NAN)
+    }
     fn nn_to_self(x: &Self::NotNan) -> Self {
         x.clone().into_inner()
     }
@@ -134,6 +148,9 @@ impl MN for Option<N32> {
             None => i128::MIN,
             Some(v) => v.raw().to_bits() as i128,
         }
+    }
+    fn rank(&self) -> f64 {
+        self.map(|v| v.raw() as f64).unwrap_or(f64::NAN)
     }
     fn nn_to_self(x: &Self::NotNan) -> Self {
         x.clone().into_inner()
@@ -169,7 +186,7 @@ where
 {
     let n = c.len;
     let data: Vec<A> = (0..n).map(|i| A::mk(c.mask >> i & 1 == 1, i)).collect();
-    let mut want: Vec<i128> = data.iter().filter(|x| !x.is_nan()).map(|x| x.key()).collect();
+    let mut want: Vec<i128> = data.iter().filter(|x| x.key() != i128::MIN).map(|x| x.key()).collect();
     want.sort();
     let desc = || format!("{} mask {:0w$b} (bit i = element i missing) len {} step {}", A::NAME, c.mask, n, c.step, w = n.max(1));
     // sentinel alternates between a missing and a non-missing value
@@ -187,7 +204,7 @@ where
             Ok(x) => x,
         };
         lx.check(vals.len() == want.len(), "C04/length", || format!("{}: returned {} elements, {} are non-missing", desc(), vals.len(), want.len()));
-        lx.check(vals.iter().all(|x| !x.is_nan()), "C04/missing-in-result", || format!("{}: returned view contains a missing value: {:?}", desc(), vals));
+        lx.check(vals.iter().all(|x| x.key() != i128::MIN), "C04/missing-in-result", || format!("{}: returned view contains a missing value: {:?}", desc(), vals));
         let mut got: Vec<i128> = vals.iter().map(|x| x.key()).collect();
         got.sort();
         lx.check(got == want, "C04/multiset", || format!("{}: returned {:?}, expected the non-missing elements of {:?}", desc(), vals, data));
@@ -331,8 +348,8 @@ where
                 let flat: Vec<i128> = res.iter().map(|x| x.key()).collect();
                 for (li, lane) in lanes.iter().enumerate() {
                     let mut ks: Vec<(i128, A)> = lane.iter().map(|&i| (data[i].key(), data[i].clone())).filter(|k| k.0 != i128::MIN).collect();
-                    // order by value: keys of the non-missing test values are monotone in the value for every type used here
-                    ks.sort_by(|a, b| a.1.try_as_not_nan().unwrap().cmp(b.1.try_as_not_nan().unwrap()));
+                    // order by value (the harness's own order)
+                    ks.sort_by(|a, b| a.1.rank().partial_cmp(&b.1.rank()).unwrap());
                     if li >= flat.len() {
                         continue;
                     }
@@ -377,7 +394,7 @@ where
         if let Some(x) = v {
             made += 1;
             let back = A::nn_to_self(&x);
-            if !lx.check(!back.is_nan(), "C04/conversion-yields-missing", || format!("{}: {} produced a not-NaN typed value that is missing", A::NAME, what)) {
+            if !lx.check(back.key() != i128::MIN, "C04/conversion-yields-missing", || format!("{}: {} produced a not-NaN typed value that is missing", A::NAME, what)) {
                 // using such a value through Deref would be undefined behaviour in the harness itself
                 return;
             }
